@@ -78,6 +78,29 @@ def wholerun_record(ctx, res, rec):
     ctx.count("wholerun_oracle_evaluated")
 
 
+def wholerun_totals(ctx, res, recs):
+    """program totals: the Emissions Summary rows must carry the sums of the program's own records, and
+    (persistent repairable sources) total mitigated = baseline emitted - program emitted over repairable leaks"""
+    rows = res.summary("Emissions Summary") or []
+    for row in rows:
+        prog, sim = row["Program Name"], int(row["Simulation"])
+        mine = [r for r in recs if r["prog"] == prog and r["sim"] == sim]
+        tot_mit = sum(float(r["row"]["Mitigated Emissions (Kg Methane)"]) for r in mine)
+        tot_em = sum(float(r["row"]['"True" Volume Emitted (Kg Methane)']) for r in mine)
+        inp = {"cfg": res.cfg, "prog": prog, "sim": sim, "summary_row": row}
+        if abs(float(row['Total "True" Mitigated Emissions (Kg Methane)']) - tot_mit) > 1e-6 * max(1.0, tot_mit):
+            ctx.violate("C02:totals:summary-mitigated", "summary total mitigated != sum over the program's records", inp)
+        if abs(float(row['Total "True" Emissions (Kg Methane)']) - tot_em) > 1e-6 * max(1.0, tot_em):
+            ctx.violate("C02:totals:summary-emitted", "summary total emitted != sum over the program's records", inp)
+        if not any(r["intermittent"] for r in mine):
+            rep = [r for r in mine if r["repairable"] and r["base"] is not None]
+            lhs = sum(r["mitDays"] * r["rate"] for r in rep)
+            rhs = sum((EC.base_fields(r)["emitDays"] - r["emitDays"]) * r["rate"] for r in rep)
+            if lhs != rhs:
+                ctx.violate("C02:totals:mitigated!=baseline-program", "program total mitigated != baseline emitted - program emitted", inp)
+        ctx.count("wholerun_totals_checked")
+
+
 def run(ctx):
     ctx.rule = ("cases = (start, nrd, delay, kind, N, tag events); structured-exhaustive core over "
                 "N<=8,start in -7..N,nrd<=6,delay<=3,one tag on any day (subsampled by seed in quick) + "
@@ -99,7 +122,7 @@ def run(ctx):
     for (c, res, ml, il) in results[:3]:
         ctx.sample({"case": list(c), "impl": il.split(" | ")[0]})
     EC.shared_component_stage(ctx, lambda ctx, case, res, base, w: oracle_case(ctx, case, res, base))
-    EC.wholerun_stage(ctx, 2, 12, wholerun_record)
+    EC.wholerun_stage(ctx, 2, 12, wholerun_record, per_result=wholerun_totals)
     ctx.assumptions.append("volumes are day counts x rate x 86.4; rates on the exact grid (rate 1.0)")
 
 
